@@ -29,6 +29,9 @@ type kv struct{ k, v []byte }
 type Snapshot struct {
 	Height int64
 	Stores map[string][]kv // sorted by key
+	// Created is an observation carried along each explored branch: the height at which an escrow payment
+	// (by projected key) was first seen in the store.
+	Created map[string]int64
 }
 
 // Dump captures the full contents of the snapshot stores of ctx.
